@@ -175,6 +175,32 @@ def edit(rng, nb, n_edits=None, shapes=None, focus=None, kinds=None):
                     c["id"] = new_id(rng)
                 used.add(c["id"])
             cells.insert(i + 1, c)
+        elif k == "dupedit":
+            # an edited copy next to the original: similar source, different outputs (competing alignment candidates)
+            c = copy.deepcopy(cells[i])
+            if c["cell_type"] != "code":
+                c = {"cell_type": "code", "metadata": {}, "source": c["source"], "execution_count": None, "outputs": []}
+                if minor >= 5:
+                    c["id"] = cells[i].get("id", "x")
+            ls = c["source"].splitlines(True)
+            while len(ls) < 4:
+                ls.append(rng.choice(VOCAB))
+            cells[i]["source"] = "".join(ls)
+            if cells[i]["cell_type"] == "code" and not cells[i]["outputs"]:
+                cells[i]["outputs"] = [output(rng, shapes)]
+            ls2 = list(ls)
+            ls2[rng.randrange(len(ls2))] = rng.choice(VOCAB)
+            c["source"] = "".join(ls2)
+            if rng.random() < 0.7:      # the original is edited a little too, so that neither copy matches strictly
+                ls[rng.randrange(len(ls))] = rng.choice(VOCAB)
+                cells[i]["source"] = "".join(ls)
+            c["outputs"] = [output(rng, shapes) for _ in range(rng.randint(1, 2))]
+            if "id" in c:
+                c["id"] = new_id(rng)
+                while c["id"] in used:
+                    c["id"] = new_id(rng)
+                used.add(c["id"])
+            cells.insert(i + rng.choice([0, 1]), c)
         elif k == "out":
             c = cells[i]
             if c["cell_type"] == "code":
